@@ -67,7 +67,7 @@ def scenario(draw, tier="quick"):
             if even:
                 size = round(size + (round(size * 100) % 2) / 100, 2)
             ops.append({"op": "place", "r": 0, "side": side, "type": "LIMIT", "tick": max(0, min(nt - 1, tick)),
-                        "size": size, "pers": "PERSIST"})
+                        "size": size, "pers": draw(st.sampled_from(["PERSIST", "PERSIST", "LAPSE", "MARKET_ON_CLOSE"]))})  # (a persistence type never changes how a resting order is matched)
         at2 = draw(st.integers(1, 3))
         k = draw(st.integers(0, len(ops)))
         script = [{"m": 0, "at": 1 + shift, "ops": ops[:k]}, {"m": 0, "at": at2 + shift, "ops": ops[k:]}]
@@ -127,6 +127,9 @@ def scenario(draw, tier="quick"):
         for s_ in strategies:
             for e_ in s_["script"]:
                 e_["at"] += 1
+                for op_ in e_["ops"]:
+                    if op_.get("pers") == "MARKET_ON_CLOSE":
+                        op_["pers"] = "PERSIST"  # (would be converted to a starting-price bet at once: not a resting order)
     return {"markets": [spec], "strategies": strategies, "clients": [{"min_bet_validation": False}], "_ri": ri,
             "subclassed_sim_middleware": draw(st.integers(0, 4)) == 0,
             "listener_kwargs": {"inplay": True} if inplay_only else {},
